@@ -528,6 +528,11 @@ class Run:
                 live[-1].session = s
             return s
         comp = Component(transports=transports, realm="realm1", session_factory=session_factory, **kw)
+        self.late_from = None
+        if cfg.get("late"):
+            # a component WITHOUT any listener when its sessions are created; the application registers
+            # its listeners while the first joined session is alive (see phase())
+            return comp
         for ev in ("connect", "join", "ready", "leave", "disconnect"):
             comp.on(ev, self._listener(ev))
         def on_connectfailure(c, e):
@@ -591,6 +596,11 @@ class Run:
 
     def phase(self, name, att):
         """a point at which the application may call stop()"""
+        if name == "joined" and self.cfg.get("late") and self.late_from is None and att is not None \
+                and att.session is not None:
+            for ev in ("connect", "join", "ready", "leave", "disconnect"):
+                self.comp.on(ev, self._listener(ev))
+            self.late_from = self.sessions.index(att.session)
         if self.stopped is not None or self.choose_stop is None or self.done:
             return
         n = att.n if att is not None else len(self.attempts)
@@ -610,6 +620,11 @@ class Run:
             self.done_f = self.comp.start(self.env.reactor)
         except Exception as e:  # noqa
             self.env.escapes.append(e)
+            return
+        if not txaio.is_future(self.done_f):
+            # documented: "returns a Future/Deferred which will resolve when we are done"
+            self.env.escapes.append(TypeError("start() returned %r instead of a Deferred/Future" % (self.done_f,)))
+            self.done_f = None
             return
         txaio.add_callbacks(self.done_f,
                             lambda r: self.done.append(("ok", self.now(), repr(r), len(self.attempts))),
@@ -648,11 +663,16 @@ class Run:
             # the SAME component object has run before: one attempt with the outcome `pre`, after which
             # its start() result completed; the judged run is the next start()
             real = (self.choose_outcome, self.choose_stop)
-            self.choose_outcome, self.choose_stop = (lambda n, idx: pre), None
+            if pre == "stop":
+                # ... or the application called stop() while the first session was joined
+                self.choose_outcome, self.choose_stop = (lambda n, idx: "leave"), (lambda phase, n: phase == "joined")
+            else:
+                self.choose_outcome, self.choose_stop = (lambda n, idx: pre), None
             self.start()
             self._loop(max_steps, 3)
-            if not self.done or self.pending or len(self.attempts) != 1:
+            if not self.done or self.pending or len(self.attempts) != 1 or (pre == "stop" and not self.stopped):
                 raise RuntimeError("harness: prelude run did not finish: %r" % (self.summary(),))
+            self.stopped, self.stop_result = None, None
             self.prelude = {"outcome": pre, "done": [list(d) for d in self.done]}
             for a in self.attempts:
                 a.factory = a.waiter = a.conn = a.link = a.session = a.main_f = None
@@ -772,6 +792,7 @@ class Run:
             "pending_timers": self.env.next_deadline() is not None,
             "t_final": round(self.now(), 9),
             "prelude": self.prelude,
+            "late_from": self.late_from,
         }
 
 
